@@ -98,6 +98,9 @@ class _TempfileProxy:
 _SETUP_DONE = []
 
 
+RULE = RULE + " Rounds 14-16: 1-3 constraint overrides drawn from the library's whole object/probe constraint tables incl. explicit falsy values of truthy defaults; 3-4 probe modes; clip_scan_positions=False with centring; a checkpoint that FAILS part-way (store error at the k-th operation, possibly sticky) after which the same live object carries on."
+
+
 def setup():
     if _SETUP_DONE:
         return
